@@ -413,7 +413,7 @@ SCOPES_QUICK = [(2, ALL2, 4, False), (2, [[0, 1], []], 6, False), (2, [[0], [1]]
 SCOPES_THOROUGH = [(2, ALL2, 6, False), (2, [[0, 1], []], 6, False), (2, [[0], [1]], 6, False),
                    (2, [[0, 1], [0]], 5, False), (3, [[0, 1, 2], [0, 1, 2]], 4, False),
                    (1, [[0], [0]], 6, True), (1, [[0], []], 6, True), (2, ALL2, 3, True),
-                   (1, [[0], [0]], 3, False, 3), (2, ALL2, 2, False, 2)]
+                   (1, [[0], [0]], 3, False, 2), (2, ALL2, 2, False, 2)]
 
 
 def _scope(ctx, scope):
